@@ -639,3 +639,71 @@ Proof.
   destruct (resolve (readDirAll root) cwd) as [c|]; [|contradiction].
   apply findFile_partial; auto.
 Qed.
+
+(* ------------------------------------------------------------------ dir/... : the exact behaviour *)
+
+Lemma chosen_dir : forall name n es,
+  chosen name (Dir n es) = choose_in (chosen name) name (option_map (fun f => [f]) (dated_best name es)) es.
+Proof. reflexivity. Qed.
+
+(* C13 (b'): findInDir with recursion, for every tree *)
+Theorem findInDir_recursive_exact : forall mname d,
+  findInDir (mname ++ DOT_YANG) true d = chosen mname d.
+Proof.
+  intros mname. induction d as [n|n cs IH] using entry_ind'; [reflexivity|].
+  rewrite findInDir_dir, chosen_dir, scan_char. cbn [app].
+  set (fb := option_map (fun f => [f]) (dated_best mname cs)).
+  assert (G : forall l, Forall (fun e => findInDir (mname ++ DOT_YANG) true e = chosen mname e) l ->
+            choose_in (chosen mname) mname fb l =
+            match first_hit (findInDir (mname ++ DOT_YANG) true) mname true l with
+            | Some p => Some p
+            | None => fb
+            end).
+  { induction l as [|e l IHl]; intros F; [reflexivity|]. inversion F as [|? ? He Hl]; subst.
+    cbn [choose_in first_hit]. destruct e as [fn|dn cs'].
+    - destruct (str_eqb fn (mname ++ DOT_YANG)) eqn:E; [|apply IHl; exact Hl].
+      apply str_eqb_eq in E. subst fn. reflexivity.
+    - destruct (any_offer mname (Dir dn cs')) eqn:A.
+      + rewrite <- He. destruct (findInDir (mname ++ DOT_YANG) true (Dir dn cs')) eqn:R; [reflexivity|].
+        apply findInDir_none in R. congruence.
+      + rewrite (proj2 (findInDir_none mname (Dir dn cs')) A). apply IHl. exact Hl. }
+  rewrite (G cs IH).
+  destruct (first_hit (findInDir (mname ++ DOT_YANG) true) mname true cs); [reflexivity|].
+  unfold fb, dated_best. pose proof (spec_best_dated mname cs) as D.
+  destruct (revs_of mname cs) as [|r rs].
+  - rewrite D. reflexivity.
+  - destruct D as (d & ds & -> & ->). reflexivity.
+Qed.
+
+Lemma scanDir_exact : forall name pe,
+  scanDir (fst pe) (name ++ DOT_YANG) (snd pe) = chosen_of name pe.
+Proof.
+  intros name [[d|] dots]; cbn [scanDir fst snd chosen_of]; [|reflexivity].
+  destruct d as [fn|n es]; [destruct dots; reflexivity|]. destruct dots.
+  - apply findInDir_recursive_exact.
+  - apply findInDir_plain.
+Qed.
+
+Lemma search_path_exact : forall name path i,
+  search_path (name ++ DOT_YANG) i path = exact_search name i path.
+Proof.
+  induction path as [|[d dots] path IH]; intros i; [reflexivity|].
+  cbn [search_path exact_search]. pose proof (scanDir_exact name (d, dots)) as S. cbn [fst snd] in S. rewrite S.
+  destruct (chosen_of name (d, dots)); [reflexivity|apply IH].
+Qed.
+
+(* findFile, for every current directory, search path and module name: no hypothesis on the trees *)
+Theorem findFile_exact : forall cwd path name,
+  has_slash name = false -> has_suffix name DOT_YANG = false ->
+  findFile cwd path name = to_outcome (exact_findFile cwd path name).
+Proof.
+  intros cwd path name Hs Hy. unfold findFile, exact_findFile. rewrite Hs, Hy.
+  cbv beta iota zeta. cbn [exact_search]. rewrite (search_path_exact name path 1).
+  pose proof (scanDir_exact name (Some cwd, false)) as S. cbn [fst snd scanDir] in S. rewrite S.
+  destruct (chosen_of name (Some cwd, false)); reflexivity.
+Qed.
+
+(* where [chosen] departs from the depth-first reading and where it does not *)
+Theorem chosen_is_first_offer : forall name d, nested_offers name d = false ->
+  chosen name d = first_offer name (expand d).
+Proof. intros. rewrite <- findInDir_recursive_exact. apply findInDir_dots_partial. assumption. Qed.
